@@ -38,6 +38,8 @@ Fault(k, p, g, at) == [kind |-> k, pkg |-> p, gen |-> g, at |-> at]
 AllFaults == ({Fault(k, p, g, at) : k \in {"err", "badsyntax", "die", "panic"}, p \in FixPkgs, g \in {"a", "b"}, at \in {"T1", "T2", "defer"}}
               \ {Fault("badsyntax", p, g, "defer") : p \in FixPkgs, g \in {"a", "b"}})
              \cup {Fault("err", p, g, "nested") : p \in FixPkgs, g \in {"a", "b"}}
+             (* ... by GenerateAliasType, for the alias A1 of the fixture variant "alias" (errors and death count there as anywhere) *)
+             \cup {Fault(k, p, g, "A1") : k \in {"err", "die"}, p \in FixPkgs, g \in {"a", "b"}}
              (* ... and by the deferred callback of a generator that rendered nothing for the package *)
              \cup {Fault("err", p, g, "qdefer") : p \in FixPkgs, g \in {"a", "b"}}
 
